@@ -108,6 +108,8 @@ func c17Eval(c c17Case, expr string) ([]interface{}, string) {
 	}
 	data["list"] = li
 	data["slist"] = append([]string{}, c.List...) // the same list as a caller-owned []string
+	data["nl"] = []string(nil)                    // empty lists in every guise: nil typed slices, read by name and through members
+	data["rec"] = map[string]interface{}{"nl": []string(nil), "el": []interface{}{}, "nil2": []interface{}(nil)}
 	out := obs.EvalText(expr, data)
 	if out.Panic != nil || out.Err != nil {
 		return nil, fmt.Sprintf("%s -> %s", expr, out)
@@ -296,6 +298,19 @@ func checkC17(c c17Case) string {
 		if m := wantStr(arrW, 5, naiveReplaceAll(s, t, c.R), "replace(s, lpad(t,'x',len(t)), r)"); m != "" {
 			return m
 		}
+	}
+	// --- empty lists, whichever way they arrive: nothing to join, nothing included
+	arrE, msgE := c17Eval(c, `[join(nl, sep), includes(nl, t), join(this.nl, sep), includes(rec.nl, t), join(rec.el, sep), includes(rec.nil2, s), join(rec.nil2, sep), includes(this.nl, '')]`)
+	if msgE != "" {
+		return msgE
+	}
+	if m := first(
+		wantStr(arrE, 0, "", "join(nl, sep) for a nil []string"), wantBool(arrE, 1, false, "includes(nl, t) for a nil []string"),
+		wantStr(arrE, 2, "", "join(this.nl, sep)"), wantBool(arrE, 3, false, "includes(rec.nl, t)"),
+		wantStr(arrE, 4, "", "join(rec.el, sep) for an empty list"), wantBool(arrE, 5, false, "includes(rec.nil2, s) for a nil list"),
+		wantStr(arrE, 6, "", "join(rec.nil2, sep)"), wantBool(arrE, 7, false, "includes(this.nl, '')"),
+	); m != "" {
+		return m
 	}
 	// --- group B: left / right with in-range n
 	if c.N >= 0 && c.N <= len(s) {
